@@ -188,7 +188,10 @@ func DecodeWTF8Rune(s string) (rune, int) {
 	}
 
 	if n < sz {
-		return utf8.RuneError, 0
+		// A truncated sequence at the end of the string is invalid. It must be
+		// consumed (like every other invalid sequence below), otherwise callers
+		// that advance by the returned width never make progress.
+		return utf8.RuneError, 1
 	}
 
 	s1 := s[1]
